@@ -435,14 +435,14 @@ def c12_scenarios(tier, seed):
                         fl["shrinktime"] = st
                     out.append(scenario("c12-%s-%s-%d-%d" % (kind, direction, k, sd), {"body": body}, fl,
                                         tag={"mayfail": True, "goal": "int", "dir": direction, "k": enc(k), "zero": enc(0), "kind": kind, "threshold": str(k)}))
-    # a slow search phase (the first 40 invocations take 60 ms each) must not eat the minimization budget
+    # a slow search phase (60 ms per random test case, typically a few seconds) must not eat the 1 s minimization budget
     for kind, k in (("Uint64", (1 << 63) + 12345), ("Int64", -(1 << 62) - 7)):
         signed, bits = INT_KINDS[kind]
         enc = WIpy if signed else Wpy
         direction = "le" if k < 0 else "ge"
-        for sd in seeds(rng, 2 if tier == "quick" else 10):
-            body = [op("sleepfirst", n=40, ms=60), draw(g(kind), "x", "x"), iff("x", direction, k, [op("fatalf", site=1)])]
-            out.append(scenario("c12-slowsearch-%s-%d-%d" % (kind, k, sd), {"body": body}, {"checks": 3000, "seed": sd, "nofailfile": "true", "shrinktime": "4s"},
+        for sd in seeds(rng, 4 if tier == "quick" else 20):
+            body = [op("sleepgen", ms=60), draw(g(kind), "x", "x"), iff("x", direction, k, [op("fatalf", site=1)])]
+            out.append(scenario("c12-slowsearch-%s-%d-%d" % (kind, k, sd), {"body": body}, {"checks": 3000, "seed": sd, "nofailfile": "true", "shrinktime": "1s"},
                                 tag={"mayfail": True, "goal": "int", "dir": direction, "k": enc(k), "zero": enc(0), "kind": kind, "threshold": str(k)}))
     ks = [0, 1, 2, 3, 5, 8] if tier == "quick" else list(range(0, 33))
     colls = {
